@@ -63,8 +63,11 @@ func ordCmd(args []string) error {
 	}
 	rng := newRand(20)
 
-	run := func(src, flow string, price int, us []int, q quote) {
+	run := func(src, flow string, price int, us []int, q quote, sx int) {
 		seller, buyer := newParty(), newParty()
+		// the script the seller wants to be paid to: P2PKH, optionally followed by sx bytes
+		pay := bscript.Script(append(append([]byte{}, *seller.script...), bytes.Repeat([]byte{0x61}, sx)...))
+		payS := &pay
 		dummyS, changeS, buyerOrdS := p2pkhScript(0xd1), p2pkhScript(0xc1), p2pkhScript(0xb1)
 		ordScript := inscriptionScript(seller.key, 12)
 		ordUTXO := &bt.UTXO{TxID: bytes.Repeat([]byte{0x0a}, 32), Vout: 0, LockingScript: ordScript, Satoshis: 1}
@@ -75,7 +78,7 @@ func ordCmd(args []string) error {
 			utxos = append(utxos, u)
 			prev[hex.EncodeToString(u.TxID)+":0"] = &bt.Output{Satoshis: uint64(v), LockingScript: buyer.script}
 		}
-		e := Ev{"ev": "ord", "src": src, "flow": flow, "price": price, "us": us, "q": q.ev(), "ok": false, "valid": []bool{}, "sellerSlen": len(*seller.script),
+		e := Ev{"ev": "ord", "src": src, "flow": flow, "price": price, "us": us, "q": q.ev(), "ok": false, "valid": []bool{}, "sellerSlen": len(*payS),
 			"tx": Ev{"ins": []Ev{}, "outs": []Ev{}}}
 		var tx *bt.Tx
 		var ferr error
@@ -84,7 +87,7 @@ func ordCmd(args []string) error {
 			switch flow {
 			case "list", "list2d":
 				pstx, err := ord.ListOrdinalForSale(ctx, &ord.ListOrdinalArgs{
-					SellerReceiveOutput: &bt.Output{Satoshis: uint64(price), LockingScript: seller.script},
+					SellerReceiveOutput: &bt.Output{Satoshis: uint64(price), LockingScript: payS},
 					OrdinalUTXO:         ordUTXO, OrdinalUnlocker: &unlocker.Simple{PrivateKey: seller.key}})
 				if err != nil {
 					ferr = err
@@ -106,7 +109,7 @@ func ordCmd(args []string) error {
 					return
 				}
 				tx, ferr = ord.AcceptBidToBuy1SatOrdinal(ctx, &ord.ValidateBidArgs{OrdinalUTXO: ordUTXO, BidAmount: uint64(price), ExpectedFQ: q.fq()},
-					&ord.AcceptBidArgs{PSTx: pstx, SellerReceiveScript: seller.script, OrdinalUnlocker: &unlocker.Simple{PrivateKey: seller.key}})
+					&ord.AcceptBidArgs{PSTx: pstx, SellerReceiveScript: payS, OrdinalUnlocker: &unlocker.Simple{PrivateKey: seller.key}})
 			case "bid2d":
 				pstx, err := ord.MakeBidToBuy1SatOrdinal2Dummies(ctx, &ord.MakeBid2DArgs{BidAmount: uint64(price), OrdinalTxID: hex.EncodeToString(ordUTXO.TxID), OrdinalVOut: 0,
 					BidderUTXOs: append([]*bt.UTXO{}, utxos...), BuyerReceiveOrdinalScript: buyerOrdS, DummyOutputScript: dummyS, ChangeScript: changeS, FQ: q.fq()})
@@ -127,7 +130,7 @@ func ordCmd(args []string) error {
 					}
 				}
 				tx, ferr = ord.AcceptBidToBuy1SatOrdinal2Dummies(ctx, &ord.ValidateBid2DArgs{PreviousUTXOs: pu, BidAmount: uint64(price), ExpectedFQ: q.fq()},
-					&ord.AcceptBid2DArgs{PSTx: pstx, SellerReceiveOrdinalScript: seller.script, OrdinalUnlocker: &unlocker.Simple{PrivateKey: seller.key}})
+					&ord.AcceptBid2DArgs{PSTx: pstx, SellerReceiveOrdinalScript: payS, OrdinalUnlocker: &unlocker.Simple{PrivateKey: seller.key}})
 			}
 		})
 		if p {
@@ -166,7 +169,7 @@ func ordCmd(args []string) error {
 			switch {
 			case o.LockingScript.Equals(dummyS):
 				role = "dummy"
-			case o.LockingScript.Equals(seller.script):
+			case o.LockingScript.Equals(payS):
 				role = "seller"
 			case o.LockingScript.Equals(buyerOrdS):
 				role = "buyerord"
@@ -192,7 +195,11 @@ func ordCmd(args []string) error {
 			for _, x := range c["us"].([]interface{}) {
 				us = append(us, num(x))
 			}
-			run("tlc", c["flow"].(string), num(c["price"]), us, quote{num(qm["ss"]), num(qm["sb"]), num(qm["ds"]), num(qm["db"])})
+			sx := 0
+			if c["sx"] != nil {
+				sx = num(c["sx"])
+			}
+			run("tlc", c["flow"].(string), num(c["price"]), us, quote{num(qm["ss"]), num(qm["sb"]), num(qm["ds"]), num(qm["db"])}, sx)
 		}
 	}
 	for i := 0; i < *n; i++ {
@@ -206,7 +213,7 @@ func ordCmd(args []string) error {
 					us[j] = 0
 				}
 			}
-			run("gen", flow, price, us, quotes[rng.Intn(3)])
+			run("gen", flow, price, us, quotes[rng.Intn(3)], []int{0, 0, 0, 1, 10, 60, 110, 228}[rng.Intn(8)])
 		}
 	}
 	// ---- inscriptions ------------------------------------------------------------------------------
